@@ -16,6 +16,18 @@ package httpserver
 // exactly one covered element "in flight". The validator-side clock is stamped
 // by taps directly before the Validator and when the handler returns.
 //
+// An "admin" task performs 0-3 administrative events at drawn instants: a new
+// pipeline generation through the real Pipeline.Inherit (which closes the
+// previous generation; the Validator spec is unchanged, or a signature secret
+// of the SAME access-key id / the JWT secret / the JWT algorithm / the ttl is
+// changed), and changes of the basicAuth credential store (user removed,
+// password replaced, user added) pushed through the cluster syncer to every
+// live watcher. A request is judged by the configuration of the generation
+// whose handler the mux really obtained for it, and by the credential store in
+// force when it was evaluated: between the beginning of a push and quiescence
+// after it (and for a generation closed while the request was inside) both the
+// old and the new store are accepted as reference.
+//
 // Oracle (written from the property statement, doc/reference/filters.md
 // "Validator", RFC 7519/7617 and the Signature V4 procedure):
 //   * a request must be let through (tapb runs, 200) iff every configured method
@@ -1491,9 +1503,6 @@ func (c *c06Chain) candidateStores(rec *c06Rec) [][]c06User {
 		if j+1 < len(c.epochs) && c.epochs[j+1].settled.Before(lo) {
 			continue
 		}
-		if j+1 == len(c.epochs) && c.pending != nil && c.pending.start.After(hi) {
-			// the push in progress began after the request ended
-		}
 		out = append(out, ep.users)
 	}
 	if c.pending != nil && !c.pending.start.After(hi) {
@@ -2156,6 +2165,7 @@ func TestVerifC06(t *testing.T) {
 	hdrv.Main(t, &hdrv.Harness{
 		ID: "C06", Gen: c06Gen, New: func() interface{} { return &c06Scenario{} }, Exec: c06Exec, Shrink: c06Shrink, MaxSteps: 400000,
 		Rule: "scenario = Validator configuration (header rules / jwt HS256-512 with cookie or bearer / signature with 1-3 access keys, ttl, excludeBody, default or AWS literals / basicAuth users incl. ':' and non-ASCII; combinations) + wire knobs (segmentation, latency, chunked bodies up to 64 KiB) + 1-3 raw clients x 1-4 requests, each issued by the independent issuer on a skewed clock, delivered at a drawn instant (often exactly on/next to exp, nbf, date±ttl, date+expires) and in ~40% of the cases with exactly one defect (wrong alg/secret/key, expired/not-yet-valid, or one covered element corrupted after signing: method, path, query, signed header, host, body, signature, date, scope, key id, token byte, password byte); " +
+			"0-3 admin events per run: pipeline generation change via Pipeline.Inherit (spec same / signature secret of one key id / jwt secret / jwt alg / ttl changed) and basicAuth credential-store pushes (remove/replace/add) through the syncer, clients optionally following the configuration in force; " +
 			"non-trivial = at least one request with a definite verdict was let through and one rejected in the same run; distinct = distinct (methods configured, per-request credential kinds/mutation/target/verdict/outcome) signatures",
 		Real: []string{"net/http.Server + pkg/object/httpserver mux (serveHTTP, FetchPayload)", "pkg/object/pipeline (flow, jumpIf)", "pkg/filters/validator (Validator, JWTValidator, BasicAuthValidator in ETCD mode)",
 			"pkg/util/signer (Verify)", "pkg/protocols/httpprot (+httpheader validator)", "golang-jwt, go-htpasswd as linked"},
@@ -2164,6 +2174,8 @@ func TestVerifC06(t *testing.T) {
 		Assumptions: []string{"edges accept both answers: exp<=now<exp+1s, now==nbf, iat in the validator's future, |now-date|==ttl, now-date==expires, and any edge crossed while the request was inside the handler",
 			"rejection status may be 400 or 401", "queries contain no space or ';', paths no dot/empty segments or lower-case escapes; only queries whose order is the same before and after URI-encoding",
 			"host and the date header are always signed; Authorization/User-Agent/Content-Length never", "methods needing the same Authorization header are not combined; oauth2 is not exercised",
-			"excludeBody: body corruption is expected to be accepted", "stream mode (clientMaxBodySize -1) only through probes"},
+			"excludeBody: body corruption is expected to be accepted", "stream mode (clientMaxBodySize -1) only through probes",
+			"credential-store change: from the beginning of a push until the system was quiescent after it both stores are valid references; a generation closed while a request is inside it may have stopped following the store",
+			"a request is judged by the Validator configuration of the pipeline generation whose handler the mux obtained for it", "the front server has no idle timeout (clients replace connections idle for 30 s themselves)"},
 	})
 }
